@@ -243,7 +243,7 @@ def check(pid, tier="quick", seed=None, jobs=None, count=None, write_evidence=Tr
     t0 = time.time()
     mod = load_prop(pid)
     seed = int(seed if seed is not None else os.environ.get("VERIF_SEED") or DEFAULT_SEED[tier])
-    jobs = int(jobs or os.environ.get("VERIF_JOBS") or min(16, os.cpu_count() or 4))
+    jobs = int(jobs or os.environ.get("VERIF_JOBS") or min(16, os.cpu_count() or 4, getattr(mod, "JOBS_CAP", 16)))
     count = int(count or os.environ.get("VERIF_COUNT") or mod.BUDGET[tier])
     wall_cap = float(os.environ.get("VERIF_WALL") or mod.WALL.get(tier, 0))
     print(f"isim check {pid} tier={tier} VERIF_SEED={seed} runs={count} jobs={jobs}", flush=True)
